@@ -960,6 +960,18 @@ pub fn cohort_patterns(o: &mut Out) -> Vec<Vec<u8>> {
                 }
             }
         }
+        // small coefficients with exponents around the number of digits of every target's limits:
+        // 1e2/3e2 (u8), 3e4/7e4 (16 bit), … , 3e38/4e38 (u128), 1e39, 1e40, and far beyond
+        for coef in ["1", "2", "3", "4", "9", "17", "34", "18", "25", "65", "42", "12"] {
+            for e in [1i64, 2, 3, 4, 5, 8, 9, 10, 17, 18, 19, 20, 36, 37, 38, 39, 40, 41, 57, 77, f.qmax_i()] {
+                if e > f.qmax_i() {
+                    continue;
+                }
+                for neg in [false, true] {
+                    v.push(enc_fin(f, neg, coef.as_bytes(), &BigInt::from(e)));
+                }
+            }
+        }
         // zeros with every kind of exponent
         let mut es: Vec<i64> = vec![f.qmin_i(), f.qmin_i() + 1, -(p as i64) - 1, -(p as i64), -(p as i64) + 1, -1, 0, 1, 38, 39, 40, f.qmax_i() - 1, f.qmax_i()];
         for _ in 0..20 {
@@ -1135,8 +1147,76 @@ pub fn g_bytes(o: &mut Out) {
     }
 }
 
+/// numerals of maximal canonical length (sign, p digits, point, e, sign, largest exponent) through try_parse:
+/// the text buffer must be large enough for every in-range numeral written without redundant characters
+pub fn g_maxlen_fmt(o: &mut Out, types: &[&str]) {
+    for ty in types {
+        let Some(capn) = cap_n(ty) else { continue };
+        let cap = text_cap(ty).map_or("-".to_string(), |c| c.to_string());
+        for n in 1..=capn {
+            if type_n(ty).is_some() && n != capn {
+                continue;
+            }
+            let f = Fmt { n };
+            let p = f.p();
+            for neg in ["-", ""] {
+                for fl in [0usize, 1, p / 2, p - 1] {
+                    for (q, digit) in [(f.qmin_i(), '1'), (f.qmin_i(), '9'), (f.qmax_i(), '9')] {
+                        let digits: String = std::iter::repeat(digit).take(p).collect();
+                        let x = q + fl as i64;
+                        let s = if fl == 0 {
+                            format!("{}{}e{}", neg, digits, x)
+                        } else {
+                            format!("{}{}.{}e{}", neg, &digits[..p - fl], &digits[p - fl..], x)
+                        };
+                        o.put(&format!("maxlen-fmt/{}", ty), format!("parse_fmt {} {} {} -", ty, cap, tx(&s)));
+                        // and split in two
+                        let k = s.len() / 2;
+                        o.put(&format!("maxlen-fmt/{}", ty), format!("parse_fmt {} {} {},{} -", ty, cap, tx(&s[..k]), tx(&s[k..])));
+                    }
+                }
+            }
+        }
+    }
+}
+
+/// NaN patterns with small and boundary payloads (1, 9, 10, 99, 100, …) at every width
+pub fn nan_payload_patterns(o: &mut Out) -> Vec<Vec<u8>> {
+    let mut v = vec![];
+    for n in [1usize, 2, 3, 4, 5, 6] {
+        let f = Fmt { n };
+        let mut payloads: Vec<String> = vec!["0".into()];
+        for k in 0..(f.p() - 1) {
+            payloads.push(format!("1{}", "0".repeat(k)));
+            payloads.push("9".repeat(k + 1));
+            payloads.push(format!("{}", 1 + o.rng.below(9)) + &"5".repeat(k));
+        }
+        for pl in payloads {
+            if pl.len() > f.p() - 1 {
+                continue;
+            }
+            for (neg, sig) in [(false, false), (true, false), (false, true), (true, true)] {
+                // a finite pattern with the payload as coefficient, then the header overwritten by the NaN header
+                let mut b = enc_fin(f, false, pl.as_bytes(), &BigInt::from(0));
+                let last = 4 * n - 1;
+                b[last] = 0x7c | if neg { 0x80 } else { 0 } | if sig { 0x02 } else { 0 };
+                v.push(b);
+            }
+        }
+    }
+    v
+}
+
 pub fn g_consts(o: &mut Out) {
+    g_maxlen_fmt(o, &["b32", "b64", "b128"]);
     for ty in ["b32", "b64", "b128"] {
+        // the limits themselves must survive a text round trip
+        let f = Fmt { n: type_n(ty).unwrap() };
+        let nines = "9".repeat(f.p());
+        for (neg, digits, q) in [(false, nines.as_str(), f.qmax()), (true, nines.as_str(), f.qmax()), (false, "1", f.qmin()), (true, "1", f.qmin())] {
+            let b = enc_fin(f, neg, digits.as_bytes(), &q);
+            o.put(&format!("limit-roundtrip/{}", ty), format!("roundtrip {} {}", ty, hex(&b)));
+        }
         o.put(&format!("consts/{}", ty), format!("consts {}", ty));
         // DIGITS-digit integer numerals with exponents around the limits
         let f = Fmt { n: type_n(ty).unwrap() };
